@@ -839,6 +839,10 @@ func (tc *TrCtx) trCall(e *ECall) TVal {
 			ts = append(ts, tc.tr(a).t)
 		}
 		return TVal{"(distinct " + strings.Join(ts, " ") + ")", tBool}
+	case "substr":
+		// substr(s, lo, hi): the Go slice expression s[lo:hi] on strings (same uninterpreted symbol as in code)
+		x, lo, hi := tc.tr(e.Args[0]), tc.tr(e.Args[1]), tc.tr(e.Args[2])
+		return TVal{fmt.Sprintf("(substr %s %s %s)", x.t, lo.t, hi.t), tString}
 	case "isnil":
 		x := tc.tr(e.Args[0])
 		if _, ok := x.typ.Underlying().(*types.Slice); ok {
